@@ -36,32 +36,32 @@ Print Assumptions intersect_order_receiver_order.
 
 (* ---- one pairwise merge through the general path ---- *)
 (* ids per axis are the union order / intersection order; every cell of the result is the sum of the
-   operands' values (absent = 0); every id's metadata is f (md self) (md other); no type; coherent *)
+   operands' values (absent = 0); every id's metadata is f (md self) (md other), where a function that is
+   None stands for "no metadata" (f_or_drop); no type; coherent *)
 Theorem merge_general_spec : forall a b sm om fs fo r,
   wf a -> wf b -> merge_general a b sm om fs fo = ROk r ->
   order_for sm (sids a) (sids b) = Some (sids r) /\
   order_for om (oids a) (oids b) = Some (oids r) /\
   (forall o s, In o (oids r) -> In s (sids r) -> cell r o s = Some (cell0 a o s + cell0 b o s)%Z) /\
-  (exists f_s f_o, fs = Some f_s /\ fo = Some f_o /\
-     forall ax i, In i (ids ax r) ->
-       md_norm (md_of ax r i) = md_norm (axis_f ax f_s f_o (md_of ax a i) (md_of ax b i))) /\
+  (forall ax i, In i (ids ax r) ->
+     md_norm (md_of ax r i) = md_norm (axis_f ax (f_or_drop fs) (f_or_drop fo) (md_of ax a i) (md_of ax b i))) /\
   ttype r = NOTYPE /\ wf r.
 Proof. exact merge_general_spec_proof. Qed.
 Print Assumptions merge_general_spec.
 
-(* the refusals of the general path, and nothing else is refused *)
+(* the refusals of the general path (an axis without ids, an unknown mode), a None function leaves its axis
+   without metadata, and nothing else is refused *)
 Theorem merge_general_refusals : forall a b sm om fs fo,
   ((sm = Inter /\ (forall x, In x (sids a) -> ~ In x (sids b))) \/
    (om = Inter /\ (forall x, In x (oids a) -> ~ In x (oids b))) \/ sm = BadMode \/ om = BadMode ->
    merge_general a b sm om fs fo = RErr E_TABLE) /\
-  (fs = None \/ fo = None -> exists c, merge_general a b sm om fs fo = RErr c) /\
-  (forall f_s f_o,
-     (match sm with Union => sids a <> [] \/ sids b <> [] | Inter => exists x, In x (sids a) /\ In x (sids b) | BadMode => False end) ->
-     (match om with Union => oids a <> [] \/ oids b <> [] | Inter => exists x, In x (oids a) /\ In x (oids b) | BadMode => False end) ->
-     exists r, merge_general a b sm om (Some f_s) (Some f_o) = ROk r).
+  (forall r, merge_general a b sm om fs fo = ROk r -> (fs = None -> smd r = None) /\ (fo = None -> omd r = None)) /\
+  ((match sm with Union => sids a <> [] \/ sids b <> [] | Inter => exists x, In x (sids a) /\ In x (sids b) | BadMode => False end) ->
+   (match om with Union => oids a <> [] \/ oids b <> [] | Inter => exists x, In x (oids a) /\ In x (oids b) | BadMode => False end) ->
+     exists r, merge_general a b sm om fs fo = ROk r).
 Proof.
   intros a b sm om fs fo. split; [apply merge_general_empty_refused|].
-  split; [apply merge_general_none_refused|intros f_s f_o; apply merge_general_succeeds].
+  split; [intros r; apply merge_general_none_md|apply merge_general_succeeds].
 Qed.
 Print Assumptions merge_general_refusals.
 
@@ -122,30 +122,33 @@ Theorem merge_dispatch_spec : forall self others sm om fs fo r,
   (fast_ok ts sm om fs fo = false ->
      fold_left (pair_step sm om fs fo) others (ROk self) = ROk r /\
      forall other, others = [other] ->
-       exists f_s f_o, fs = Some f_s /\ fo = Some f_o /\
          order_for sm (sids self) (sids other) = Some (sids r) /\
          order_for om (oids self) (oids other) = Some (oids r) /\
          forall ax i, In i (ids ax r) ->
-           md_norm (md_of ax r i) = md_norm (axis_f ax f_s f_o (md_of ax self i) (md_of ax other i))).
+           md_norm (md_of ax r i)
+           = md_norm (axis_f ax (f_or_drop fs) (f_or_drop fo) (md_of ax self i) (md_of ax other i))).
 Proof. exact merge_dispatch_spec_proof. Qed.
 Print Assumptions merge_dispatch_spec.
 
 (* metadata through the entry point, list form and every path included: f from left to right over the
-   operands' metadata.  Needed of f: it does not tell None from the empty dict and f None None is empty *)
-Theorem merge_dispatch_md : forall self others sm om f_s f_o r,
+   operands' metadata, a function that is None dropping the metadata of its axis.
+   Needed of f: it does not tell None from the empty dict and f None None is empty (respects_norm);
+   needed of the call: "ignore metadata" (both None) is asked of at least one other table *)
+Theorem merge_dispatch_md : forall self others sm om fs fo r,
   wf self -> Forall wf others -> sm <> BadMode -> om <> BadMode ->
-  respects_norm f_s -> respects_norm f_o ->
-  merge_dispatch self others sm om (Some f_s) (Some f_o) = ROk r ->
+  respects_norm (f_or_drop fs) -> respects_norm (f_or_drop fo) ->
+  others <> [] \/ ~ (fs = None /\ fo = None) ->
+  merge_dispatch self others sm om fs fo = ROk r ->
   forall ax i, In i (ids ax r) ->
-    md_norm (md_of ax r i) = md_norm (md_fold (axis_f ax f_s f_o) ax self others i).
+    md_norm (md_of ax r i) = md_norm (md_fold (axis_f ax (f_or_drop fs) (f_or_drop fo)) ax self others i).
 Proof. exact merge_dispatch_md_proof. Qed.
 Print Assumptions merge_dispatch_md.
 
 (* the default policy is the one of the property text: the receiver's metadata if it has any, otherwise
    the other's; it meets the hypotheses of merge_dispatch_md *)
 Theorem prefer_self_is_the_text_default :
-  (forall x y, prefer_self x y = prefer_self_text x y) /\ respects_norm prefer_self.
-Proof. split; [exact prefer_self_text_eq|exact prefer_self_respects]. Qed.
+  (forall x y, prefer_self x y = prefer_self_text x y) /\ respects_norm prefer_self /\ respects_norm drop_md.
+Proof. split; [exact prefer_self_text_eq|split; [exact prefer_self_respects|exact drop_md_respects]]. Qed.
 Print Assumptions prefer_self_is_the_text_default.
 
 Theorem merge_dispatch_bad_mode_refused : forall self others sm om fs fo,
@@ -236,15 +239,12 @@ Proof.
 Qed.
 Print Assumptions fast_path_ignores_creating_f_refuted.
 
-(* passing None for both functions ("ignore metadata") is honoured on union/union only: with an
-   intersection the general path calls None (TypeError) although the tables share ids *)
-Theorem merge_none_functions_intersection_refuted :
-  exists a b,
-    wf a /\ wf b /\ (exists x, In x (sids a) /\ In x (sids b)) /\ (exists x, In x (oids a) /\ In x (oids b)) /\
-    merge_dispatch a [b] Inter Inter None None = RErr E_TYPE.
-Proof.
-  exists ex_a, ex_b. split; [apply ex_wf|]. split; [apply ex_wf|].
-  split; [exists 120%Z; vm_compute; auto|]. split; [exists 20%Z; vm_compute; auto|].
-  vm_compute. reflexivity.
-Qed.
-Print Assumptions merge_none_functions_intersection_refuted.
+(* passing None for the functions ("ignore metadata") works on every path (repair b9a3d3e4; before it the
+   general path called None: TypeError) *)
+Example ex_none_functions :
+  merge_dispatch ex_a [ex_c] Inter Inter None None = ROk (mkT [10]%Z [120]%Z [[6]]%Z None None 0%Z) /\
+  merge_dispatch ex_a [ex_c] Union Inter (Some prefer_self) None
+  = ROk (mkT [10]%Z [110;120;130]%Z [[1;6;6]]%Z None (Some [mdA; mdC2; mdC3]) 0%Z) /\
+  merge_dispatch ex_a [ex_c] Union Inter None (Some prefer_self)
+  = ROk (mkT [10]%Z [110;120;130]%Z [[1;6;6]]%Z None None 0%Z).
+Proof. repeat split; vm_compute; reflexivity. Qed.
